@@ -143,6 +143,9 @@ var plrmLoopCases = []struct{ prog, want string }{
 	{"9223372036854775807 -9223372036854775808 -9223372036854775808 {} for", "9223372036854775807 -1"},
 	{"4 {7} repeat", "7 7 7 7"}, {"0 {7} repeat", ""}, {"[1 2 3] {10 mul} forall", "10 20 30"}, {"(AB) {} forall", "65 66"}, {"<C3A9> {} forall", "195 169"}, {"<80FF41> {} forall", "128 255 65"}, {"0 {1 add dup 3 eq {exit} if} loop", "3"},
 	{"1 1 3 {2 {dup exit} repeat} for", "1 1 2 2 3 3"},
+	// a named procedure left by exit (or by an error) from the middle of its body, more often than there are execution-stack levels
+	{"/n 0 def /p { /n n 1 add def exit 99 } def 0 1 120 { pop { p 98 } loop } for n", "121"}, {"/p { exit 9 } def 12 { 10 { 3 { p 8 } repeat } repeat } repeat count", "0"},
+	{"/p { 1 exit 2 } def 0 1 150 { pop [ 5 6 ] { pop p 2 } forall pop } for count", "0"}, {"/p { { exit 1 } loop 5 } def /q { p pop exit 7 } def 200 { { q 6 } loop } repeat count", "0"},
 	// bind: operator names are replaced whenever bind is applied, by what they stand for at that moment; other names stay
 	{"/p {1 2 foo} def /p load bind pop /foo /add load def /p load bind pop /foo /sub load def p", "3"},
 	{"/p {{1 2 foo} exec} def /p load bind pop /foo /add load def /p load bind pop /foo /sub load def p", "3"},
@@ -259,6 +262,12 @@ func suiteBudget(o *suiteOut, r *rng, tier string, n int) {
 	progs = append(progs, "errordict /interrupt { 42 } put 10 { 1 pop } repeat 7", "errordict /interrupt { } put 1 1 20 { pop } for (x)",
 		"errordict /interrupt { pop 99 } put [1 2 3 4 5 6] { pop } forall 8", "errordict /interrupt { 1 } put { 1 2 3 pop pop pop } exec { 4 pop } exec 5",
 		"errordict /interrupt { /handled true def } put true { 1 2 add pop 3 4 add pop } if 6", "errordict /interrupt { } put 5 { 2 { 1 pop } repeat } repeat")
+	// loops over large containers that end early: what such a loop costs is what it executes, not the size of its operand
+	progs = append(progs, "systemdict { pop pop exit } forall 7", "systemdict { pop pop nosuchname } forall", "errordict { pop pop exit } forall 1 2 add",
+		"100 array { pop exit } forall 3", "(0123456789012345678901234567890123456789) { pop exit } forall 4",
+		"1 1 1000000 { pop exit } for 9", "1000000 { exit } repeat 8", "StandardEncoding { pop exit } forall 2", "systemdict { pop pop } forall 6")
+	// named procedures left by exit from a non-tail position, more often than the execution stack has levels
+	progs = append(progs, "/n 0 def /p { /n n 1 add def exit 99 } def 0 1 120 { pop { p 98 } loop } for n", "/p { exit 9 } def 12 { 10 { 3 { p 8 } repeat } repeat } repeat count")
 	for i := 0; i < nr; i++ {
 		if r.chance(1, 2) {
 			g := &ctlGen{r: r}
@@ -417,6 +426,8 @@ func suiteBudget(o *suiteOut, r *rng, tier string, n int) {
 	// an eexec section inside a checked file is not checked
 	for hi, h := range [][]string{
 		{"%!PS\n1 2", "3 4 mul", "xyz"}, {"xyz", "%!PS\n1", "2"}, {"%!", "", "5"}, {"", "%!PS\n7", "8 9"}, {"%", "%!\n1", "(a) 1 add", "2"},
+		{"%!PS\n1 stop 2", "42"}, {"%!PS\n1 exit 2", "42", "43"}, {"%!PS\n{7 stop 8} exec 9", "42"}, {"%!PS\n(a) 1 add", "42"}, {"%!PS\ncurrentfile closefile 5", "42"}, {"%!PS\nfoo", "bar", "42"},
+		{"%!PS\n{ } loop", "42"}, {"zz", "%!PS\nstop", "1 2 add"}, {"%!PS\n/p { stop } def p", "3"},
 		{"%!PS\ncurrentfile eexec 00000000", "1"}, {"7 8", "%!\n9"}, {"xyz", "1 2 add", "%!PS\n3", "4"}, {"", "", "5", "%!\n6"}, {"x", "y", "z"}, {"%", "%", "%!\n1"},
 	} {
 		intp := postscript.NewInterpreter()
@@ -545,6 +556,16 @@ func suiteHostile(o *suiteOut, r *rng, tier string, n int) {
 	for _, c := range hostileFixed {
 		p.run(20000, false, c)
 		o.count("fixed hostile programs")
+	}
+	// the resource operators with every category name the reference knows (and some it does not), instances of every
+	// type, and look-ups in which the freshly defined name is the key or the category
+	for _, cat := range []string{"Category", "Generic", "Font", "CMap", "ProcSet", "Encoding", "FontSet", "Form", "Pattern", "ColorSpace", "IdiomSet", "CIDFont", "Nope", "Foo"} {
+		for _, inst := range []string{"5", "(abc)", "[1 2]", "<< >>", "<< /a 1 >>", "/n", "{ x }", "1.5", "true", "mark", "currentfile", "systemdict", "/add load"} {
+			for _, tail := range []string{"/x /Foo findresource", "/Foo /" + cat + " findresource", "/Foo /Foo findresource", "/Foo 1 /Foo defineresource", "/Foo findfont", "/" + cat + " /Category findresource"} {
+				p.run(20000, false, fmt.Sprintf("/Foo %s /%s defineresource pop %s", inst, cat, tail))
+				o.count("resource operators x category x instance type")
+			}
+		}
 	}
 	depths := []int{1, 2, 99, 100, 101, 102, 103, 500, 3000}
 	if tier == "thorough" {
